@@ -53,6 +53,7 @@ type rsWorld struct {
 	bridge *accessory.Bridge
 	stampI uint64
 	stamps []string
+	smu    sync.Mutex // guards stamps only: never held while anything of the accessory is called
 }
 
 func newRSWorld(seed int64, k int, n int) (*rsWorld, error) {
@@ -109,11 +110,13 @@ func (w *rsWorld) close() {
 // checkAccessories: well-formed JSON, every accessory present once, every Name value as the application set it
 // stamp sets a new serial number of the bridge and returns its index.
 func (w *rsWorld) stamp() int {
-	w.mu.Lock()
-	defer w.mu.Unlock()
+	// (not under w.mu: an application goroutine that is stuck in a notification to a controller which does not read - a
+	// seeded change may make it so - holds that lock, and the word has to go on to the step in which the controller reads)
+	w.smu.Lock()
 	n := len(w.stamps)
 	v := fmt.Sprintf("stamp-%d-", n) + strings.Repeat("s", (n*7)%23)
 	w.stamps = append(w.stamps, v)
+	w.smu.Unlock()
 	w.bridge.Info.SerialNumber.SetValue(v)
 	return n
 }
@@ -148,12 +151,12 @@ func (w *rsWorld) checkAccessories(body []byte, from int) (bool, string) {
 				if a.Aid == w.bridge.Accessory.ID && c.Iid == w.stampI {
 					// the serial number is one the application had set when the request was sent or has set since
 					v, _ := c.Value.(string)
-					w.mu.Lock()
+					w.smu.Lock()
 					okStamp := false
 					for _, st := range w.stamps[from:] {
 						okStamp = okStamp || st == v
 					}
-					w.mu.Unlock()
+					w.smu.Unlock()
 					if !okStamp {
 						return false, fmt.Sprintf("serial number of the bridge %q: not a value the application set since the request", v)
 					}
